@@ -24,12 +24,17 @@ def classify_collection_helpers(F):
     for n, h in F.hir.items():
         if not n.startswith(EDT) or h["kind"] != "method":
             continue
-        filt = find_hir(h["body"], lambda x: x.get("k") == "MethodCall" and x.get("method") == "filter")
-        if not filt:
+        def filters_matches(hh):
+            filt = find_hir(hh["body"], lambda x: x.get("k") == "MethodCall" and x.get("method") == "filter")
+            return any(find_hir(f[0], lambda x: x.get("k") == "Field" and x.get("name") == "matches") for f in filt)
+        # the selection of the matching rules may be inherited from another helper (`let mut rules = self.get_matching_rules(); rules.sort_by(..)`)
+        own = filters_matches(h)
+        inherited = not own and any(filters_matches(F.hir[c]) and F.hir[c].get("kind") == "method" and "Vec<" in str(F.fns.get(c, {}).get("ret", "Vec<"))
+                                    for c in called_methods(F, h, 1))
+        if not own and not inherited:
             continue
-        on_matches = any(find_hir(f[0], lambda x: x.get("k") == "Field" and x.get("name") == "matches") for f in filt)
-        if not on_matches:
-            continue
+        if inherited and not find_hir(h["body"], lambda x: x.get("k") == "MethodCall" and x.get("method", "").startswith("sort")):
+            continue              # a consumer of the collection (an evaluate_* method), not a collection helper
         sorts = find_hir(h["body"], lambda x: x.get("k") == "MethodCall" and x.get("method", "").startswith("sort"))
         # the comparator may be a closure in the helper or a private method it calls
         bodies = [h["body"]] + [F.hir[c]["body"] for c in called_methods(F, h, 2)]
@@ -73,8 +78,10 @@ def edt_helper(F, exclude):
 
 def effective_returns(fl):
     """returns of a method with the returns of expanded helpers substituted for `return helper(..)`"""
-    hr = [(d, c, l) for d, c, l, _ in fl.helper_returns]
     expanded = {n for _, _, _, n in fl.helper_returns}
+    # only a helper whose call is itself a result of the method contributes its returns; a helper called for an argument (`sum(self.values_of(..))`) does not
+    in_return_position = {d[1] for d, _, _ in fl.returns if d and d[0] == "call" and d[1] in expanded}
+    hr = [(d, c, l) for d, c, l, n in fl.helper_returns if n in in_return_position]
     own = [(d, c, l) for d, c, l in fl.returns if not (d and d[0] == "alt") and not any(d == x[0] for x in hr) and not (d and d[0] == "call" and d[1] in expanded)]
     return own + hr
 
